@@ -4,15 +4,19 @@ package props
 
 import (
 	"bytes"
+	"context"
 	"errors"
 	"fmt"
+	"log/slog"
 	"runtime"
 	"strings"
 	"sync"
 	"sync/atomic"
 	"testing"
+	"time"
 
 	"go.uber.org/zap"
+	"go.uber.org/zap/exp/zapslog"
 	"go.uber.org/zap/zapcore"
 	"go.uber.org/zap/zaptest/observer"
 	"pgregory.net/rapid"
@@ -279,7 +283,7 @@ func c10Check(t interface {
 	}
 	eout := &memSink{}
 	var top zapcore.Core
-	switch wrap {
+	switch strings.SplitN(wrap, "+", 2)[0] {
 	case "delegating": // Tee.Write is called as a whole
 		top = delegatingCore{zapcore.NewTee(zc...)}
 	case "nested": // tee of tees behind a delegating wrapper
@@ -289,6 +293,18 @@ func c10Check(t interface {
 		top = zapcore.NewTee(zc...)
 	}
 	lg := zap.New(top, zap.ErrorOutput(eout), zap.WithFatalHook(panicHook{}))
+	// front ends without an error output: a core driven directly (as custom front ends do) and the slog handler.
+	// The failure cannot be reported there, but the call still returns and the healthy destinations get the entry.
+	front := "logger"
+	if strings.HasSuffix(wrap, "+direct") {
+		front = "direct"
+	} else if strings.HasSuffix(wrap, "+slog") {
+		front = "slog"
+	}
+	if front != "logger" && level >= zapcore.DPanicLevel {
+		level = zapcore.ErrorLevel
+	}
+	sh := zapslog.NewHandler(top)
 	for e := 0; e < nEntries; e++ {
 		before := len(eout.writes)
 		func() {
@@ -296,13 +312,24 @@ func c10Check(t interface {
 				p := recover()
 				terminal := level >= zapcore.PanicLevel // Panic panics by default; Fatal uses a hook that panics
 				if p != nil && !terminal {
-					t.Fatalf("%s: logging call panicked on a sink failure: %v", desc, p)
+					t.Fatalf("%s: logging call (%s front end) panicked on a sink failure: %v", desc, front, p)
 				}
 				if p == nil && terminal {
 					t.Fatalf("%s: terminal level %v did not run its action", desc, level)
 				}
 			}()
-			lg.Log(level, fmt.Sprintf("msg%d", e))
+			switch front {
+			case "direct":
+				if ce := top.Check(zapcore.Entry{Level: level, Message: fmt.Sprintf("msg%d", e)}, nil); ce != nil {
+					ce.Write()
+				}
+			case "slog":
+				sl := map[zapcore.Level]slog.Level{zapcore.DebugLevel: slog.LevelDebug, zapcore.InfoLevel: slog.LevelInfo, zapcore.WarnLevel: slog.LevelWarn, zapcore.ErrorLevel: slog.LevelError}[level]
+				var zt time.Time
+				_ = sh.Handle(context.Background(), slog.NewRecord(zt, sl, fmt.Sprintf("msg%d", e), 0))
+			default:
+				lg.Log(level, fmt.Sprintf("msg%d", e))
+			}
 		}()
 		// expected failures for this entry
 		var wantErrs []string
@@ -319,7 +346,11 @@ func c10Check(t interface {
 			}
 		}
 		reports := eout.writes[before:]
-		if len(wantErrs) == 0 {
+		if front != "logger" {
+			if len(reports) != 0 {
+				t.Fatalf("%s: a front end without error output wrote a report", desc)
+			}
+		} else if len(wantErrs) == 0 {
 			if len(reports) != 0 {
 				t.Fatalf("%s: entry %d had no failing destination but the error output got %q", desc, e, reports)
 			}
@@ -443,7 +474,7 @@ func propC10Sinks(t *rapid.T) {
 			sig += "/"
 		}
 	}
-	wrap := rapid.SampledFrom([]string{"plain", "delegating", "nested"}).Draw(t, "wrap")
+	wrap := rapid.SampledFrom([]string{"plain", "delegating", "nested"}).Draw(t, "wrap") + rapid.SampledFrom([]string{"", "", "", "+direct", "+slog"}).Draw(t, "frontEnd")
 	sig += wrap
 	c10Check(t, cores, fcores, nEntries, level, sig, wrap)
 	dests := 0
